@@ -380,8 +380,11 @@ def api_symbols(root, tw):
     rt = routines[tw[1] % len(routines)]
     tab = rt.symbol_table
     try:
-        ivar = tab.new_symbol(c15_gen.respell("icell", tw[2]), symbol_type=DataSymbol, datatype=INTEGER_TYPE)
-        tmp = tab.new_symbol(c15_gen.respell("tmp", tw[2] + 1), symbol_type=DataSymbol, datatype=REAL_TYPE)
+        # with tags, as transformations create them (`deep_copy` re-builds the tag dict by name)
+        ivar = tab.new_symbol(c15_gen.respell("icell", tw[2]), tag="c15_index", symbol_type=DataSymbol,
+                              datatype=INTEGER_TYPE)
+        tmp = tab.new_symbol(c15_gen.respell("tmp", tw[2] + 1), tag="c15_tmp", symbol_type=DataSymbol,
+                             datatype=REAL_TYPE)
         body = [Assignment.create(Reference(tmp), BinaryOperation.create(
             BinaryOperation.Operator.ADD, Reference(tmp), Literal("1.0", REAL_TYPE))),
                 Assignment.create(Reference(tmp), BinaryOperation.create(
